@@ -506,7 +506,8 @@ FAMILIES = {
              ("swapx", "vii", 2), ("reversex", "vii", 2), ("fillx", "vxii", 1), ("oflist", "xxx", 2), ("index", "vm", 1), ("skip", "vm", 1),
              ("indexr", "vm", 1), ("count", "vm", 1), ("sum", "v", 1), ("partition", "vm", 1), ("bsearch", "vx", 2), ("len", "v", 1)],
     "lq": [("addf", "sx", 5), ("addb", "sx", 6), ("remf", "s", 5), ("remb", "s", 4), ("copy", "ss", 1), ("append", "sss", 1), ("concat", "sss", 1),
-           ("setlist", "sxxx", 1), ("removeall", "s", 1), ("map1x", "s", 1), ("map1", "ss", 1), ("front", "s", 2), ("back", "s", 2), ("empty", "s", 1)],
+           ("setlist", "sxxx", 1), ("removeall", "s", 1), ("map1x", "s", 1), ("map1", "ss", 1), ("appendx", "sss", 1), ("unf", "six", 1), ("unfq", "six", 1),
+           ("unfr", "six", 1), ("unfrq", "six", 1), ("front", "s", 2), ("back", "s", 2), ("empty", "s", 1)],
 }
 FAMILIES["hmap"] = FAMILIES["map"]
 # ordered mappings only: mapping-range*, mapping-catenate (tree-split / tree-catenate of rbtree.scm).  A family of its own because
@@ -517,7 +518,7 @@ FAMILIES["omap"] = [("set", "vxx", 6), ("delete", "vx", 5), ("rlt", "vx", 2), ("
 OMAP_SIG = "hist:omap:split-catenate"
 # (chibi iset) inside the Coq model (coq/C18/ISet.v): the operations the model mirrors; the dump is the real tree
 FAMILIES["isett"] = [("adjoin", "vx", 10), ("adjoin2", "vxx", 2), ("adjoinx", "vx", 2), ("delete", "vx", 6), ("deletex", "vx", 2), ("union", "vv", 2),
-                     ("unionx", "vv", 1), ("copy", "v", 1), ("oflist", "xxx", 1), ("has", "vx", 4), ("size", "v", 2), ("sum", "v", 1), ("empty", "v", 1)]
+                     ("unionx", "vv", 1), ("inter", "vv", 2), ("diff", "vv", 2), ("interx", "vv", 1), ("diffx", "vv", 1), ("copy", "v", 1), ("oflist", "xxx", 1), ("has", "vx", 4), ("size", "v", 2), ("sum", "v", 1), ("empty", "v", 1)]
 QUERY_OPS = {"has", "size", "subset", "psubset", "equal", "disjoint", "countmod", "sum", "empty", "count", "usize", "ref", "sumv", "keys", "car",
              "len", "front", "back", "eq", "anyp", "everyp", "findp", "findrp", "countp", "partition", "splitat", "span", "index", "last", "any", "every", "foldr", "foldl", "skip", "indexr", "bsearch"}
 BAG_V_SUM = True     # in the bag family "sum" builds a new version
@@ -818,8 +819,9 @@ def targeted_histories(rng):
                     for x in range(b[0], b[1] + 1, 1 if b[1] - b[0] < 50 else 41):
                         h.emit("adjoin", [vb, t + x]); vb = h.newest()
                     h.emit("union", [va, vb]); h.emit("union", [vb, va]); h.emit("unionx", [va, vb])
-                    if fam == "iset":
-                        h.emit("inter", [va, vb]); h.emit("diff", [va, vb]); h.emit("diff", [vb, va]); h.emit("inter", [vb, va])
+                    h.emit("inter", [va, vb]); h.emit("diff", [va, vb]); h.emit("diff", [vb, va]); h.emit("inter", [vb, va])
+                    # operate on the results: the trees intersection / difference leave behind must be usable
+                    h.emit("adjoin", [h.newest(), t + b[0] - 1]); h.emit("delete", [h.newest() - 2, t + a[0]]); h.emit("union", [h.newest() - 3, va])
                     out.append((fam, h.prog))
                 else:
                     out.append((fam, hist_of(fam, c)))
@@ -949,6 +951,29 @@ def ra_targeted(rng, thorough):
     return out
 
 
+def lq_targeted(rng):
+    """SRFI 117: the last-pair pointer at its boundaries: queues of 0-4 elements built from either end, emptied from either end (the
+    pointer must be reset on the way down and set again by the next add), set-list! / map! / unfold with a queue on empty and
+    non-empty queues, append! / concatenate followed by mutation of the sources (no sharing may show)"""
+    out = []
+    for n in range(0, 5):
+        for build in ("addb", "addf"):
+            for rem in ("remb", "remf"):
+                p = [(build, [0, i]) for i in range(n)]
+                for _ in range(n + 1):
+                    p += [(rem, [0]), ("back", [0]), ("front", [0])]
+                p += [("addb", [0, 7]), ("addb", [0, 8]), ("remb", [0]), ("addf", [0, 9]), ("remb", [0]), ("remb", [0]), ("addb", [0, 5])]
+                out.append(("lq", p))
+        p = [("addb", [1, i]) for i in range(n)]
+        p += [("map1x", [1]), ("addb", [1, 3]), ("unfq", [1, n, 10]), ("remb", [1]), ("addb", [1, 4]), ("unfrq", [1, n + 1, 20]), ("addb", [1, 6]),
+              ("copy", [2, 1]), ("remb", [2]), ("addb", [1, 1]), ("appendx", [0, 1, 2]), ("addb", [1, 2]), ("addb", [2, 3]), ("remb", [0]),
+              ("addb", [0, 4]), ("concat", [2, 0, 1]), ("remf", [0]), ("remb", [1]), ("addb", [2, 5]), ("removeall", [1]), ("addb", [1, 1]),
+              ("setlist", [1, 1, 2, 3]), ("remb", [1]), ("remb", [1]), ("remb", [1]), ("addb", [1, 9]), ("unf", [2, n, 0]), ("addb", [2, 1]),
+              ("unfr", [2, n, 0]), ("addb", [2, 1]), ("remb", [2])]
+        out.append(("lq", p))
+    return out
+
+
 def hist_scheme(fam, prog):
     body = " ".join("(%s %s)" % (n, " ".join(map(str, a))) for n, a in prog)
     return "(run-lq '(%s))" % body if fam == "lq" else "(run-hist '%s '(%s))" % (fam, body)
@@ -1074,6 +1099,8 @@ def strip_shapes(t):
 # families whose versions are the Coq MODEL's data structure: name of the broken-correspondence entry, what the shape is, and the
 # family name under which the driver runs the same history on the abstract list / set oracle
 TIED = {"isett": ("inner:iset-tree-shape", "tree", "coq/C18/ISet.v", "iset"),
+        "map": ("inner:rbtree-shape", "red-black tree", "coq/C18/RBTree.v", "mapo"),
+        "lq": ("inner:list-queue-record", "record", "coq/C18/LQueue.v", "lqo"),
         "deque": ("inner:ideque-record", "record (lenf:f:lenr:r)", "coq/C18/Deque.v", "dequeo"),
         "ra": ("inner:ralist-tree-sizes", "list of tree sizes", "coq/C18/RaList.v", "rao")}
 FOREACH_SIG = "hist:ra:for-each-nary-order"
@@ -1104,7 +1131,7 @@ def check_histories(ctx, d, exe, corpus_hist=()):
     per = 30 if not ctx.thorough else 400
     items = list(corpus_hist)
     ntarget = 0
-    for it in targeted_histories(rng) + deque_targeted(rng, ctx.thorough) + ra_targeted(rng, ctx.thorough):
+    for it in targeted_histories(rng) + deque_targeted(rng, ctx.thorough) + ra_targeted(rng, ctx.thorough) + lq_targeted(rng):
         items.append(it); ntarget += 1
     import json as _json
     try:
@@ -1264,6 +1291,8 @@ def run(ctx):
     c18_iset.regen(ctx)            # (G) coq/Gen/C18_ISetGuards.v from lib/chibi/iset/constructors.scm
     from gen import c18_ralist
     c18_ralist.regen(ctx)          # (G) coq/Gen/C18_SeqLeaves.v from lib/srfi/101.scm (largest-skew-binary ...) and 134.scm (check)
+    from gen import c18_rbtree
+    c18_rbtree.regen(ctx)          # (G) coq/Gen/C18_RBTables.v from lib/srfi/146/rbtree.scm (the tree-match clause tables)
     ctx.coq_obligations("Properties_C18")
     d = ctx.build("default")
     exe = ctx.extract("C18")
